@@ -197,6 +197,11 @@ func judge(c Case, o *vh.Obs) {
 	sync := func() { m.digestOK = m.code == m.dCode && m.notes == m.dNotes }
 	digested := func() { m.dCode, m.dNotes = m.code, m.notes; sync() }
 	counter := 0
+	// held: the pointer to the document obtained when it was put in place (at
+	// the start, after an insert, after parsing) and kept by the caller: the
+	// "edit" step writes through it without asking the envelope again, which is
+	// how an application edits the struct it handed over
+	held := invoiceOf(env)
 	history := func(i int) string { return strings.Join(c.Ops[:i+1], ",") }
 	for i, op := range c.Ops {
 		switch op {
@@ -217,6 +222,7 @@ func judge(c Case, o *vh.Obs) {
 			m.hasCode = true
 			m.code, m.notes = "inserted", 0
 			digested()
+			held = invoiceOf(env)
 		case "calculate":
 			if err := env.Calculate(); err != nil {
 				o.Failf("calculate:error", "step %d (%s): %v", i, history(i), err)
@@ -225,7 +231,11 @@ func judge(c Case, o *vh.Obs) {
 			digested()
 		case "edit":
 			counter++
-			inv := invoiceOf(env)
+			inv := held
+			if inv == nil {
+				o.Discard()
+				return
+			}
 			inv.Notes = append(inv.Notes, &org.Note{Text: fmt.Sprintf("edit %d", counter)})
 			m.notes++
 			sync()
@@ -374,6 +384,7 @@ func judge(c Case, o *vh.Obs) {
 				return
 			}
 			env = e2
+			held = invoiceOf(env)
 		case "oddsigs-empty", "oddsigs-null":
 			data, _ := json.Marshal(env)
 			tree, err := jsontree.Decode(data)
@@ -392,6 +403,26 @@ func judge(c Case, o *vh.Obs) {
 				if e2.Validate() == nil {
 					o.Failf("oddsigs:accepted", "step %d (%s): an envelope whose signature list is [%v] parses and validates", i, history(i), entry)
 					return
+				}
+			}
+			if op == "oddsigs-null" && len(env.Signatures) > 0 {
+				// an entry holding the JSON serialisation of a JWS with two signatures
+				// (twice the envelope's own): whatever is read and validates must be a
+				// signature the envelope can write again
+				parts := strings.Split(env.Signatures[0].String(), ".")
+				if len(parts) == 3 {
+					one := map[string]any{"protected": parts[0], "signature": parts[2]}
+					general, _ := json.Marshal(map[string]any{"payload": parts[1], "signatures": []any{one, one}})
+					t3, _ := jsontree.Set(tree, "/sigs", []any{string(general)})
+					e4 := new(gobl.Envelope)
+					if err := json.Unmarshal(jsontree.Encode(t3), e4); err == nil && e4.Validate() == nil {
+						for j, sg := range e4.Signatures {
+							if sg == nil || sg.String() == "" {
+								o.Failf("oddsigs:unwritable-accepted", "step %d (%s): a signature entry holding a JSON-serialised JWS with two signatures parses and validates, but signature %d cannot be written again (it serialises as \"\")", i, history(i), j)
+								return
+							}
+						}
+					}
 				}
 			}
 			if op == "oddsigs-empty" {
@@ -502,7 +533,7 @@ func genCase(t *rapid.T) Case {
 
 func init() {
 	vh.Describe(
-		"Operation alphabet (19): insert another document (2), calculate, edit the document, drop / set its code, sign with key 1 / key 2, unsign, add stamp (2 providers, replacing), add two stamps of one provider, add / alter a link, add two links of one key, validate, verify with key 1 and without any key, serialise+parse, and parsing the envelope with a signature list of [\"\"] or [null] (the first also built in memory: a signature that holds nothing must not validate). Every sequence up to length 3 (thorough: 5 for the first base, 4 for the others) from three example invoices of different regimes is enumerated exhaustively; rapid draws sequences of length 4-30. Reference machine over the four facts (digest matches; document valid for signing = carries a code and no duplicate header entries; signatures present; header still contains each signed header): it predicts ok / error key of sign and validate, the verdict of verify and the signature count after every step; invariants: a failed Sign leaves zero signatures, a validating envelope with stamps is signed, every signature entry is real (non-empty, parses back), validate and serialise+parse do not change the envelope. Non-trivial: the history contains an interaction pair (e.g. sign after edit, stamp after unsign, second signature after a header change) or an odd signature list.",
+		"Operation alphabet (19): insert another document (2), calculate, edit the document (through the pointer obtained when the document was put in place and kept since - the envelope is not asked again), drop / set its code (through a fresh Extract), sign with key 1 / key 2, unsign, add stamp (2 providers, replacing), add two stamps of one provider, add / alter a link, add two links of one key, validate, verify with key 1 and without any key, serialise+parse, and parsing the envelope with a signature list of [\"\"] or [null] (the first also built in memory: a signature that holds nothing must not validate). Every sequence up to length 3 (thorough: 5 for the first base, 4 for the others) from three example invoices of different regimes is enumerated exhaustively; rapid draws sequences of length 4-30. Reference machine over the four facts (digest matches; document valid for signing = carries a code and no duplicate header entries; signatures present; header still contains each signed header): it predicts ok / error key of sign and validate, the verdict of verify and the signature count after every step; invariants: a failed Sign leaves zero signatures, a validating envelope with stamps is signed, every signature entry is real (non-empty, parses back), validate and serialise+parse do not change the envelope. Non-trivial: the history contains an interaction pair (e.g. sign after edit, stamp after unsign, second signature after a header change) or an odd signature list.",
 		"the base documents are valid examples; edits keep them structurally valid",
 	)
 	vh.Enum("exhaustive", enumAll, judge)
